@@ -76,4 +76,231 @@ theorem one_eq_count_one (c : SCfg) (ctx : Ctx) (m m' me m1 : Meta) (xs b : Node
 example : intConst ({ kd := .num .int } : Meta).kd 1 = .int .int 1 ∧ intConst ({} : Meta).kd 1 = .int .int 1 :=
   ⟨by simp [intConst, wrap, Kind.bits, Kind.isSigned], by simp [intConst]⟩
 
+/-! ### count / filter / map -/
+
+/-- what `len(filter(…))` adds to `count(…)`: the kept elements are built and charged to the budget -/
+def chargeLen (budget : Int) : R Val × SState → R Val × SState
+  | (.ok (.int .int k), s) =>
+    let s' := { s with memory := s.memory + k, created := s.created + k.toNat }
+    if s'.memory ≥ budget then (.error .budget, s') else (.ok (.int .int k), s')
+  | r => r
+
+/-- `len(filter(xs, {p})) = count(xs, {p})` up to the allocation of the filtered array, exactly: for a
+    collection that is an array (or string), the left side is the right side followed by charging the
+    `k` kept elements (`chargeLen`).  Hence (corollaries below): same call log always, same error when
+    `count` fails (same element, same class, same state), same value unless the budget is reached. -/
+theorem count_eq_len_filter (c : SCfg) (ctx : Ctx) (m m' ml : Meta) (xs b : Node) (s : SState)
+    (hseq : ∀ coll s', eval c ctx xs s = (.ok coll, s') → SeqVal coll) :
+    eval c ctx (.builtin ml "len" [.builtin m' "filter" [xs, b]]) s =
+    chargeLen c.budget (eval c ctx (.builtin m "count" [xs, b]) s) := by
+  rw [eval_len, SM.bind_apply, eval_filter_seq c ctx m' xs b s hseq, eval_count_seq c ctx m xs b s hseq,
+    SM.bind_apply, SM.bind_apply]
+  rcases h : eval c ctx xs s with ⟨r, s1⟩
+  cases r with
+  | error e => rfl
+  | ok coll =>
+    simp only [filterOn, countOn, SM.bind_apply]
+    rcases h2 : seqIdx (predAt c ctx coll b) (elemsOf coll).length 0 s1 with ⟨r2, s2⟩
+    cases r2 with
+    | error e => rfl
+    | ok bs =>
+      have hl := seqIdx_length _ _ _ _ _ _ h2
+      have hk := keep_length (elemsOf coll) bs hl
+      have hn : (countTrue bs).toNat = (keep (elemsOf coll) bs).length := by rw [← hk]; simp
+      simp only [SM.pure_apply, SM.allocAfter, chargeLen, hk, hn]
+      by_cases hb : s2.memory + countTrue bs ≥ c.budget
+      · simp only [hb, if_true]
+      · simp only [hb, if_false, lengthV, SM.lift_ok, SM.pure_apply, hk]
+
+/-! concrete instances used as non-vacuity witnesses -/
+def w0 : World := { call := fun _ _ => .error .type_, regexMatch := fun _ _ => none, pow := fun x _ => x }
+def c0 : SCfg := { world := w0, env := .map [("M", .map [("a", .int .int 1)])], budget := 1000 }
+/-- `[5, 6]` -/
+def xs0 : Node := .array {} [.int {} 5, .int {} 6]
+theorem xs0_eval : eval c0 [] xs0 {} = (.ok (.arr .iface [.int .int 5, .int .int 6]), { memory := 2, created := 2 }) := rfl
+
+example : ∀ coll s', eval c0 [] xs0 {} = (.ok coll, s') → SeqVal coll := by
+  intro coll s' h
+  rw [xs0_eval] at h
+  simp only [Prod.mk.injEq, Except.ok.injEq] at h
+  rw [← h.1]
+  exact ⟨rfl, by simp [elemsOf]⟩
+
+/-- the call log of `len(filter(…))` equals that of `count(…)`, budget reached or not -/
+theorem count_len_filter_log (c : SCfg) (ctx : Ctx) (m m' ml : Meta) (xs b : Node) (s : SState)
+    (hseq : ∀ coll s', eval c ctx xs s = (.ok coll, s') → SeqVal coll) :
+    (eval c ctx (.builtin ml "len" [.builtin m' "filter" [xs, b]]) s).2.log =
+    (eval c ctx (.builtin m "count" [xs, b]) s).2.log := by
+  rw [count_eq_len_filter c ctx m m' ml xs b s hseq]
+  rcases eval c ctx (.builtin m "count" [xs, b]) s with ⟨r, s1⟩
+  cases r with
+  | error e => rfl
+  | ok v =>
+    unfold chargeLen
+    split
+    · rename_i h; simp only [Prod.mk.injEq, Except.ok.injEq] at h
+      simp only [← h.2]
+      split <;> rfl
+    · rfl
+
+/-- a failure of `count` (collection, predicate at element k, non-bool) is the failure of `len(filter)`:
+    same class, same state -/
+theorem count_len_filter_error (c : SCfg) (ctx : Ctx) (m m' ml : Meta) (xs b : Node) (s s1 : SState)
+    (e : ErrClass)
+    (hseq : ∀ coll s', eval c ctx xs s = (.ok coll, s') → SeqVal coll)
+    (h : eval c ctx (.builtin m "count" [xs, b]) s = (.error e, s1)) :
+    eval c ctx (.builtin ml "len" [.builtin m' "filter" [xs, b]]) s = (.error e, s1) := by
+  rw [count_eq_len_filter c ctx m m' ml xs b s hseq, h]; rfl
+
+/-- same value when the budget is not reached; `budget` otherwise -/
+theorem count_len_filter_value (c : SCfg) (ctx : Ctx) (m m' ml : Meta) (xs b : Node) (s s1 : SState)
+    (k : Int)
+    (hseq : ∀ coll s', eval c ctx xs s = (.ok coll, s') → SeqVal coll)
+    (h : eval c ctx (.builtin m "count" [xs, b]) s = (.ok (.int .int k), s1)) :
+    (eval c ctx (.builtin ml "len" [.builtin m' "filter" [xs, b]]) s).1 =
+      if s1.memory + k ≥ c.budget then .error .budget else .ok (.int .int k) := by
+  rw [count_eq_len_filter c ctx m m' ml xs b s hseq, h]
+  simp only [chargeLen]
+  split <;> rfl
+
+/-- `count` only ever returns an `int` -/
+theorem count_returns_int (c : SCfg) (ctx : Ctx) (m : Meta) (xs b : Node) (s s1 : SState) (v : Val)
+    (h : eval c ctx (.builtin m "count" [xs, b]) s = (.ok v, s1)) : ∃ k, v = .int .int k := by
+  rw [eval_count] at h
+  simp only [SM.bind_apply] at h
+  rcases h0 : eval c ctx xs s with ⟨r, s0⟩
+  rw [h0] at h
+  cases r with
+  | error e => simp at h
+  | ok coll =>
+    simp only at h
+    rcases h1 : SM.lift (lengthV coll) s0 with ⟨r1, s2⟩
+    rw [h1] at h
+    cases r1 with
+    | error e => simp at h
+    | ok n =>
+      simp only at h
+      rcases h2 : seqIdx (predAt c ctx coll b) n.toNat 0 s2 with ⟨r2, s3⟩
+      rw [h2] at h
+      cases r2 with
+      | error e => simp at h
+      | ok bs => simp at h; exact ⟨_, h.1.symm⟩
+
+/-! ### map -/
+
+/-- `map` after its collection has been evaluated: run the mapper at every index, then charge `n` -/
+def mapOutcome (budget n : Int) : R (List Val) × SState → R Val × SState
+  | (.ok vs, s1) =>
+    let s2 := { s1 with memory := s1.memory + n, created := s1.created + vs.length }
+    if s2.memory ≥ budget then (.error .budget, s2) else (.ok (.arr .iface vs), s2)
+  | (.error e, s1) => (.error e, s1)
+
+theorem map_eq (c : SCfg) (ctx : Ctx) (m : Meta) (xs f : Node) (s s0 : SState) (coll : Val) (n : Int)
+    (hx : eval c ctx xs s = (.ok coll, s0)) (hn : lengthV coll = .ok n) :
+    eval c ctx (.builtin m "map" [xs, f]) s =
+      mapOutcome c.budget n (seqIdx (bodyAt c ctx coll f) n.toNat 0 s0) := by
+  rw [eval_map, SM.bind_apply, hx]
+  simp only [hn, SM.lift_ok, SM.bind_apply, SM.pure_apply]
+  rcases h1 : seqIdx (bodyAt c ctx coll f) n.toNat 0 s0 with ⟨r1, s1⟩
+  cases r1 with
+  | error e => rfl
+  | ok vs =>
+    simp only [SM.allocAfter, mapOutcome]
+    by_cases hb : s1.memory + n ≥ c.budget
+    · simp only [hb, if_true]
+    · simp only [hb, if_false]
+
+/-- `len(map(xs, {f}))` and `len(xs)`: whenever the left side succeeds, the right side (from the same
+    start state) succeeds with the same value.  Only the value is preserved: the left side also logs
+    the calls made by `f` and charges the mapped array. -/
+theorem len_map (c : SCfg) (ctx : Ctx) (ml ml' m : Meta) (xs f : Node) (s s1 : SState) (v : Val)
+    (h : eval c ctx (.builtin ml "len" [.builtin m "map" [xs, f]]) s = (.ok v, s1)) :
+    ∃ s0, eval c ctx (.builtin ml' "len" [xs]) s = (.ok v, s0) := by
+  rw [eval_len, SM.bind_apply] at h
+  rw [eval_len, SM.bind_apply]
+  rcases hx : eval c ctx xs s with ⟨rx, s0⟩
+  cases rx with
+  | error e =>
+    rw [eval_map, SM.bind_apply, hx] at h; simp at h
+  | ok coll =>
+    simp only
+    cases hn : lengthV coll with
+    | error e =>
+      rw [eval_map, SM.bind_apply, hx] at h; simp [hn, SM.bind_apply] at h
+    | ok n =>
+      rw [map_eq c ctx m xs f s s0 coll n hx hn] at h
+      rcases h1 : seqIdx (bodyAt c ctx coll f) n.toNat 0 s0 with ⟨r1, s2⟩
+      rw [h1] at h
+      cases r1 with
+      | error e => simp [mapOutcome] at h
+      | ok vs =>
+        have hl := seqIdx_length _ _ _ _ _ _ h1
+        have hn0 := lengthV_nonneg hn
+        simp only [mapOutcome] at h
+        by_cases hb : s2.memory + n ≥ c.budget
+        · simp [hb] at h
+        · simp only [hb, if_false, lengthV, SM.lift_ok, SM.bind_apply, SM.pure_apply, Prod.mk.injEq, Except.ok.injEq] at h
+          refine ⟨s0, ?_⟩
+          simp only [SM.lift_ok, SM.bind_apply, SM.pure_apply, Prod.mk.injEq, Except.ok.injEq, and_true]
+          rw [← h.1, hl]; congr 1; omega
+
+/-- conversely, when every evaluation of `f` succeeds and the budget is not reached, both sides
+    succeed with the length of the collection -/
+theorem len_map_ok (c : SCfg) (ctx : Ctx) (ml ml' m : Meta) (xs f : Node) (s s0 s1 : SState) (coll : Val)
+    (n : Int) (vs : List Val)
+    (hx : eval c ctx xs s = (.ok coll, s0)) (hn : lengthV coll = .ok n)
+    (hf : seqIdx (bodyAt c ctx coll f) n.toNat 0 s0 = (.ok vs, s1))
+    (hb : s1.memory + n < c.budget) :
+    eval c ctx (.builtin ml "len" [.builtin m "map" [xs, f]]) s =
+      (.ok (.int .int n), { s1 with memory := s1.memory + n, created := s1.created + vs.length }) ∧
+    eval c ctx (.builtin ml' "len" [xs]) s = (.ok (.int .int n), s0) := by
+  have hl := seqIdx_length _ _ _ _ _ _ hf
+  have hn0 := lengthV_nonneg hn
+  constructor
+  · rw [eval_len, SM.bind_apply, map_eq c ctx m xs f s s0 coll n hx hn, hf]
+    have : ¬ (s1.memory + n ≥ c.budget) := by omega
+    simp only [mapOutcome, this, if_false, lengthV, SM.lift_ok, SM.bind_apply, SM.pure_apply, hl]
+    congr 3; omega
+  · rw [eval_len, SM.bind_apply, hx]
+    simp only [hn, SM.lift_ok, SM.bind_apply, SM.pure_apply]
+
+/-- error behaviour of `map`: once the collection is evaluated, `map` fails iff some evaluation of `f`
+    fails (at the first such index `k`, with that class and in that state, all earlier ones having
+    succeeded), or the budget is reached after all of them succeeded -/
+theorem map_fails_iff (c : SCfg) (ctx : Ctx) (m : Meta) (xs f : Node) (s s0 s' : SState) (coll : Val)
+    (n : Int) (e : ErrClass)
+    (hx : eval c ctx xs s = (.ok coll, s0)) (hn : lengthV coll = .ok n) :
+    eval c ctx (.builtin m "map" [xs, f]) s = (.error e, s') ↔
+      (∃ k, k < n.toNat ∧ ∃ vs sk, seqIdx (bodyAt c ctx coll f) k 0 s0 = (.ok vs, sk) ∧
+          bodyAt c ctx coll f k sk = (.error e, s')) ∨
+      (∃ vs s1, seqIdx (bodyAt c ctx coll f) n.toNat 0 s0 = (.ok vs, s1) ∧ s1.memory + n ≥ c.budget ∧
+          e = .budget ∧ s' = { s1 with memory := s1.memory + n, created := s1.created + vs.length }) := by
+  rw [map_eq c ctx m xs f s s0 coll n hx hn]
+  rcases h1 : seqIdx (bodyAt c ctx coll f) n.toNat 0 s0 with ⟨r1, s1⟩
+  cases r1 with
+  | error e1 =>
+    have := seqIdx_error_iff (bodyAt c ctx coll f) n.toNat 0 s0 s' e
+    simp only [Nat.zero_add] at this
+    rw [← this, h1]
+    simp [mapOutcome]
+  | ok vs =>
+    have hno : ¬ ∃ k, k < n.toNat ∧ ∃ vs sk, seqIdx (bodyAt c ctx coll f) k 0 s0 = (.ok vs, sk) ∧
+          bodyAt c ctx coll f k sk = (.error e, s') := by
+      intro hh
+      have := (seqIdx_error_iff (bodyAt c ctx coll f) n.toNat 0 s0 s' e).2 (by simpa using hh)
+      rw [h1] at this; simp at this
+    simp only [hno, false_or, mapOutcome]
+    constructor
+    · intro h
+      split at h
+      · rename_i hb
+        simp only [Prod.mk.injEq, Except.error.injEq] at h
+        exact ⟨vs, s1, rfl, hb, h.1.symm, h.2.symm⟩
+      · simp at h
+    · rintro ⟨vs', s1', hh, hb, he, hs⟩
+      simp only [Prod.mk.injEq, Except.ok.injEq] at hh
+      rw [← hh.1, ← hh.2] at hs
+      rw [← hh.2] at hb
+      simp [hb, he, hs]
+
 end ExprModel.C18
